@@ -1,3 +1,4 @@
+import os
 """C10(a): instantiation units. Each unit is one translation unit that forces a class template
 (explicit instantiation: every member function) or a member-function template (odr-use in a
 never-called function) to instantiate with a library type satisfying its stated concept."""
@@ -114,4 +115,16 @@ def units():
             '  bool isTerminal(size_t) const { return false; } };\n')
     add('POMCP<UserGen>', ['POMDP/Algorithms/POMCP.hpp'], '#include <tuple>\n' + user + 'template class %sPOMDP::POMCP<UserGen>;' % A)
     add('MCTS<UserGen>', ['MDP/Algorithms/MCTS.hpp'], '#include <tuple>\n' + user + 'template class %sMDP::MCTS<UserGen>;' % A)
+    # Factored/Utils/APSP.hpp declares `buildAdjacencyList(const Action &, const FactorGraph<Factor> &)` (a function template, so the
+    # clang declaration scan of non-template functions does not see it); a documented overload must also LINK. Only while it is declared.
+    try:
+        import re as _re
+        from common import REPO as _REPO
+        _apsp = open(os.path.join(_REPO, 'include/AIToolbox/Factored/Utils/APSP.hpp')).read()
+        if _re.search(r'auto\s+buildAdjacencyList\s*\(\s*const\s+Action\s*&\s*\w*\s*,', _apsp):
+            U.append({'id': 'link:buildAdjacencyList(A,graph)', 'link': True,
+                      'src': '#include <AIToolbox/Factored/Utils/APSP.hpp>\n#include <AIToolbox/Types.hpp>\n'
+                             'int main() { %sFactored::FactorGraph<%sVector> g(2); %sFactored::Action A{2, 2}; return (int)%sFactored::buildAdjacencyList(A, g).size(); }\n' % (A, A, A, A)})
+    except OSError:
+        pass
     return [u for u in U if u]
